@@ -814,6 +814,29 @@ UniValue DoRespend(World& w, const UniValue& a)
     return r;
 }
 
+// the wallet itself spends the change of its k-th committed transaction (and commits): a descendant in the wallet
+UniValue DoChildOf(World& w, const UniValue& a, bool submit)
+{
+    UniValue r(UniValue::VOBJ);
+    const size_t k = a.getInt<int>();
+    if (k < 1 || k > w.created.size()) { r.pushKV("skipped", true); return r; }
+    const WTx& t = w.txs.at(w.created[k - 1]);
+    if (!t.change_pos || w.pool().isSpent(COutPoint(t.tx->GetHash(), *t.change_pos)) || !w.pool().exists(t.tx->GetHash())) { r.pushKV("skipped", true); return r; }
+    CCoinControl cc; cc.m_allow_other_inputs = false; cc.Select(COutPoint(t.tx->GetHash(), *t.change_pos));
+    cc.m_feerate = CFeeRate(3000); cc.m_include_unsafe_inputs = true;
+    bool st;
+    CRecipient rc{DestOf(w, "ext_bech32", st), t.tx->vout[*t.change_pos].nValue, true};
+    auto res = CreateTransaction(*w.wallet, {rc}, std::nullopt, cc);
+    if (!res) { r.pushKV("skipped", true); r.pushKV("err", util::ErrorString(res).original); return r; }
+    auto acc = w.Submit(res->tx, true);
+    if (acc.m_result_type != MempoolAcceptResult::ResultType::VALID) { r.pushKV("skipped", true); r.pushKV("err", acc.m_state.GetRejectReason()); return r; }
+    w.wallet->CommitTransaction(res->tx);
+    if (submit) w.MustSubmit(res->tx, "childof");        // otherwise the child exists in the wallet only (a broadcast that did not happen yet)
+    w.Sync();
+    r.pushKV("tx", w.Name(res->tx, "k")); r.pushKV("parent", t.name); r.pushKV("ok", true); r.pushKV("submitted", submit);
+    return r;
+}
+
 // ------------------------------------------------------------------------------------------------------------------ script mode
 void RunScript(size_t n, const UniValue& t, uint64_t seed)
 {
@@ -842,12 +865,194 @@ void RunScript(size_t n, const UniValue& t, uint64_t seed)
             line.pushKV("res", r);
         } else if (op == "respend") {
             line.pushKV("res", DoRespend(w, a[1]));
+        } else if (op == "childof") {
+            line.pushKV("res", DoChildOf(w, a[1], a.size() < 3 || a[2].get_bool()));
         } else if (op == "mine") {
             w.MinePool(a[1].getInt<int>());
             w.Sync();
         } else {
             throw std::runtime_error("unknown script action " + op);
         }
+        ++R().steps;
+        Emit(line);
+    }
+    ++R().tests;
+}
+
+// ------------------------------------------------------------------------------------------------------------------ balance mode (C44)
+// Replays behaviours of specs/WalletBalance: a fixed universe of transactions over three confirmed outputs of the others, blocks built by
+// the behaviour (coinbase to the wallet or not, a bulk of 100 empty blocks), invalidate / reconsider, abandon. After every step the
+// adapter prints the node's active chain and mempool and the wallet's view: GetBalance(), AvailableCoins(), its transactions.
+constexpr CAmount UNIT = 100000;         // one value unit of the model in satoshi
+
+struct BalWorld {
+    World w;
+    UniValue uni;
+    std::map<std::string, CTransactionRef> tx;              // universe name -> real transaction
+    std::map<std::string, std::pair<COutPoint, CTxOut>> base;   // base coin name -> the others' confirmed output
+    std::map<int, std::vector<uint256>> blocks;             // model block id -> hashes (100 for a bulk)
+    UniValue block_recs{UniValue::VARR};                    // what the adapter built: {id, parent, txs, mine, span}
+    std::map<uint256, int> block_of;
+    std::map<Txid, std::string> cb_name;                    // coinbase of model block b -> "cb<b>"
+    int base_height{0};
+
+    BalWorld(uint64_t seed, const UniValue& universe) : w(seed), uni(universe)
+    {
+        // the base coins: outputs of the others worth 100 units each, confirmed below everything the behaviour does
+        std::vector<CTransactionRef> txs;
+        for (const char* n : {"F1", "F2", "F3"}) {
+            auto t = w.FaucetTx({CTxOut(100 * UNIT, w.sim->coinbaseSpk)});
+            base[n] = {COutPoint(t->GetHash(), 0), t->vout[0]};
+            txs.push_back(t);
+        }
+        w.Mine({}, txs);
+        w.MineEmpty(2);
+        w.Sync();
+        base_height = w.Height();
+        for (const auto& name : uni.getKeys()) Build(name);
+    }
+    const CTxOut& PrevOut(const std::string& p, int i) { return base.count(p) ? base.at(p).second : tx.at(p)->vout.at(i - 1); }
+    COutPoint PrevPoint(const std::string& p, int i) { return base.count(p) ? base.at(p).first : COutPoint(tx.at(p)->GetHash(), i - 1); }
+    void Build(const std::string& name)
+    {
+        if (tx.count(name)) return;
+        const UniValue& d = uni[name];
+        CMutableTransaction m;
+        std::map<COutPoint, Coin> coins;
+        for (size_t k = 0; k < d["ins"].size(); ++k) {
+            const std::string p = d["ins"][k][0].get_str(); const int i = d["ins"][k][1].getInt<int>();
+            if (!base.count(p)) Build(p);
+            m.vin.emplace_back(PrevPoint(p, i), CScript{}, CTxIn::MAX_SEQUENCE_NONFINAL);
+            coins[PrevPoint(p, i)] = Coin(PrevOut(p, i), 1, false);
+        }
+        for (size_t k = 0; k < d["outs"].size(); ++k) {
+            const bool mine = d["outs"][k]["mine"].get_bool();
+            m.vout.emplace_back(d["outs"][k]["v"].getInt<int64_t>() * UNIT, mine ? w.NewWalletScript("bech32") : w.sim->coinbaseSpk);
+        }
+        std::map<int, bilingual_str> errs;
+        w.wallet->SignTransaction(m, coins, SIGHASH_DEFAULT, errs);          // the wallet's inputs
+        for (size_t k = 0; k < m.vin.size(); ++k) {
+            const CTxOut& po = coins.at(m.vin[k].prevout).out;
+            if (po.scriptPubKey == w.sim->coinbaseSpk) w.sim->SignP2PK(m, k, po);   // the others' inputs
+        }
+        tx[name] = MakeTransactionRef(m);
+        w.names[tx[name]->GetHash()] = name;
+    }
+    int Parse(const UniValue& v) { return v.getInt<int>(); }
+
+    UniValue Apply(const UniValue& a)
+    {
+        const std::string op = a[0].get_str();
+        UniValue r(UniValue::VOBJ);
+        if (op == "submit" || op == "send") {
+            const auto& t = tx.at(a[1].get_str());
+            if (op == "send") w.wallet->CommitTransaction(t);
+            auto res = w.Submit(t);
+            r.pushKV("ok", res.m_result_type == MempoolAcceptResult::ResultType::VALID);
+            if (!res.m_state.IsValid()) r.pushKV("why", res.m_state.GetRejectReason());
+        } else if (op == "mine") {
+            const int b = a[1].getInt<int>();
+            const bool mine = a[4].get_bool(), bulk = a[5].get_bool();
+            std::vector<CTransactionRef> txs;
+            for (size_t k = 0; k < a[3].size(); ++k) txs.push_back(tx.at(a[3][k].get_str()));
+            if (bulk) {
+                for (int k = 0; k < 100; ++k) { auto blk = w.BuildBlock({}, {}, nullptr, 7000 + b); Connect(blk, b); }
+            } else {
+                std::vector<CTxOut> cb; cb.emplace_back(7 * UNIT, mine ? w.NewWalletScript("bech32") : w.sim->coinbaseSpk);
+                auto blk = w.BuildBlock(cb, txs, nullptr, 7000 + b);
+                Connect(blk, b);
+                cb_name[blk->vtx[0]->GetHash()] = "cb" + std::to_string(b);
+                w.names[blk->vtx[0]->GetHash()] = "cb" + std::to_string(b);
+            }
+            UniValue br(UniValue::VOBJ);
+            br.pushKV("id", b); br.pushKV("parent", a[2].getInt<int>()); br.pushKV("txs", a[3]); br.pushKV("mine", mine); br.pushKV("span", bulk ? 100 : 1);
+            block_recs.push_back(br);
+            r.pushKV("ok", true);
+        } else if (op == "invalidate") {
+            w.sim->Invalidate(blocks.at(a[1].getInt<int>()).front());
+            r.pushKV("ok", true);
+        } else if (op == "reconsider") {
+            w.sim->Reconsider(blocks.at(a[1].getInt<int>()).front());
+            r.pushKV("ok", true);
+        } else if (op == "abandon") {
+            r.pushKV("ok", w.wallet->AbandonTransaction(tx.at(a[1].get_str())->GetHash()));
+        } else if (op == "evict") {
+            LOCK2(cs_main, w.pool().cs);
+            w.pool().removeRecursive(*tx.at(a[1].get_str()), MemPoolRemovalReason::EXPIRY);
+            r.pushKV("ok", true);
+        } else {
+            throw std::runtime_error("unknown balance action " + op);
+        }
+        w.Sync();
+        return r;
+    }
+    void Connect(const std::shared_ptr<CBlock>& blk, int b)
+    {
+        auto [ok, nb] = w.sim->SubmitBlock(blk, true);
+        if (!ok || w.sim->Tip()->GetBlockHash() != blk->GetHash()) throw std::runtime_error("model block was not connected: " + w.sim->Reason(blk->GetHash()));
+        blocks[b].push_back(blk->GetHash()); block_of[blk->GetHash()] = b;
+    }
+    static CAmount Units(CAmount v, bool& exact) { if (v % UNIT) exact = false; return v / UNIT; }
+
+    UniValue Project()
+    {
+        UniValue o(UniValue::VOBJ);
+        UniValue chain(UniValue::VARR);
+        {
+            LOCK(cs_main);
+            int last = 0;
+            for (int h = base_height + 1; h <= w.sim->cm().ActiveChain().Height(); ++h) {
+                auto it = block_of.find(w.sim->cm().ActiveChain()[h]->GetBlockHash());
+                const int b = it == block_of.end() ? -1 : it->second;
+                if (b != last) chain.push_back(b);
+                last = b;
+            }
+        }
+        o.pushKV("chain", chain);
+        std::vector<std::string> pool;
+        for (const auto& info : w.pool().infoAll()) pool.push_back(w.names.count(info.tx->GetHash()) ? w.names[info.tx->GetHash()] : "?" + info.tx->GetHash().ToString().substr(0, 8));
+        std::sort(pool.begin(), pool.end());
+        UniValue jp(UniValue::VARR); for (const auto& s : pool) jp.push_back(s);
+        o.pushKV("pool", jp);
+        bool exact = true;
+        const Balance b = GetBalance(*w.wallet);
+        UniValue bal(UniValue::VOBJ);
+        bal.pushKV("trusted", (int64_t)Units(b.m_mine_trusted, exact)); bal.pushKV("pending", (int64_t)Units(b.m_mine_untrusted_pending, exact)); bal.pushKV("immature", (int64_t)Units(b.m_mine_immature, exact));
+        o.pushKV("bal", bal);
+        if (!exact) o.pushKV("inexact", strprintf("%d/%d/%d", b.m_mine_trusted, b.m_mine_untrusted_pending, b.m_mine_immature));
+        std::vector<std::string> coins, known, aband, confl;
+        {
+            LOCK(w.wallet->cs_wallet);
+            CCoinControl cc;
+            for (const auto& c : AvailableCoins(*w.wallet, &cc).All()) coins.push_back((w.names.count(c.outpoint.hash) ? w.names[c.outpoint.hash] : "?") + ":" + std::to_string(c.outpoint.n + 1));
+            for (const auto& [id, wtx] : w.wallet->mapWallet) {
+                if (!w.names.count(id)) continue;
+                const std::string n = w.names[id];
+                if (!tx.count(n) && !cb_name.count(id)) continue;
+                known.push_back(n);
+                if (wtx.isAbandoned() && !wtx.IsCoinBase()) aband.push_back(n);
+                if (wtx.isBlockConflicted()) confl.push_back(n);
+            }
+        }
+        auto arr = [](std::vector<std::string>& v) { std::sort(v.begin(), v.end()); UniValue a(UniValue::VARR); for (const auto& s : v) a.push_back(s); return a; };
+        o.pushKV("coins", arr(coins)); o.pushKV("known", arr(known)); o.pushKV("aband", arr(aband)); o.pushKV("conflicted", arr(confl));
+        o.pushKV("blocks", block_recs);
+        return o;
+    }
+};
+
+void RunBalance(size_t n, const UniValue& t, uint64_t seed)
+{
+    R().cur_test = n; R().cur_step = 0; R().cur_action = UniValue::VNULL;
+    BalWorld bw(seed * 1000003 + n, t["init"]["uni"]);
+    const UniValue& steps = t["steps"];
+    for (size_t i = 0; i < steps.size(); ++i) {
+        const UniValue& a = steps[i]["a"];
+        R().cur_step = i; R().cur_action = a;
+        UniValue line(UniValue::VOBJ);
+        line.pushKV("kind", "trace"); line.pushKV("test", (uint64_t)n); line.pushKV("step", (uint64_t)i);
+        line.pushKV("res", bw.Apply(a));
+        line.pushKV("obs", bw.Project());
         ++R().steps;
         Emit(line);
     }
@@ -865,6 +1070,18 @@ int main(int argc, char** argv)
     if (mode == "script") {
         ForEachLine(argv[2], [&](size_t n, const UniValue& t) {
             try { RunScript(n, t, seed); }
+            catch (const std::exception& e) {
+                UniValue o(UniValue::VOBJ);
+                o.pushKV("kind", "error"); o.pushKV("test", (uint64_t)n); o.pushKV("step", (uint64_t)R().cur_step); o.pushKV("why", std::string("adapter: ") + e.what());
+                Emit(o); R().Count("adapter_errors");
+            }
+        });
+        R().Summary();
+        return 0;
+    }
+    if (mode == "balance") {
+        ForEachLine(argv[2], [&](size_t n, const UniValue& t) {
+            try { RunBalance(n, t, seed); }
             catch (const std::exception& e) {
                 UniValue o(UniValue::VOBJ);
                 o.pushKV("kind", "error"); o.pushKV("test", (uint64_t)n); o.pushKV("step", (uint64_t)R().cur_step); o.pushKV("why", std::string("adapter: ") + e.what());
